@@ -428,6 +428,23 @@ func provenanceNodes(p *Path, v ssa.Value, at int) (calls []*ssa.Call, leaves []
 		case *ssa.TypeAssert:
 			walk(x.X, at, depth+1)
 		case *ssa.Slice:
+			if a, ok := x.X.(*ssa.Alloc); ok {
+				// a variadic argument list (or a local array): what was stored into its elements
+				n := 0
+				for _, r := range *a.Referrers() {
+					if ia, ok := r.(*ssa.IndexAddr); ok {
+						for _, rr := range *ia.Referrers() {
+							if st, ok := rr.(*ssa.Store); ok && st.Addr == ssa.Value(ia) {
+								n++
+								walk(st.Val, at, depth+1)
+							}
+						}
+					}
+				}
+				if n > 0 {
+					return
+				}
+			}
 			walk(x.X, at, depth+1)
 		case *ssa.BinOp:
 			walk(x.X, at, depth+1)
@@ -479,4 +496,62 @@ func describeLeaves(P *Program, leaves []ssa.Value) string {
 		return "no source found"
 	}
 	return "it comes from " + strings.Join(out, ", ")
+}
+
+// pathInt / pathBool fold a value to a constant along the path: phis resolve to the edge taken, the
+// result of an inlined call to what the callee returned on this path, comparisons of two such constants
+// are evaluated.
+func pathInt(p *Path, v ssa.Value, at int) (int64, bool) {
+	saved := p.throughCalls
+	p.throughCalls = true
+	r := p.Resolve(v, at)
+	p.throughCalls = saved
+	if n, ok := constInt(r); ok {
+		return n, true
+	}
+	if cv, ok := r.(*ssa.Convert); ok {
+		return pathInt(p, cv.X, at)
+	}
+	return 0, false
+}
+
+func pathBool(p *Path, v ssa.Value, at int) (bool, bool) {
+	saved := p.throughCalls
+	p.throughCalls = true
+	r := p.Resolve(v, at)
+	p.throughCalls = saved
+	if b, ok := constBool(r); ok {
+		return b, true
+	}
+	switch x := r.(type) {
+	case *ssa.UnOp:
+		if x.Op == token.NOT {
+			if b, ok := pathBool(p, x.X, at); ok {
+				return !b, true
+			}
+		}
+	case *ssa.BinOp:
+		a, ok1 := pathInt(p, x.X, at)
+		b, ok2 := pathInt(p, x.Y, at)
+		if ok1 && ok2 {
+			switch x.Op {
+			case token.EQL:
+				return a == b, true
+			case token.NEQ:
+				return a != b, true
+			case token.LSS:
+				return a < b, true
+			case token.LEQ:
+				return a <= b, true
+			case token.GTR:
+				return a > b, true
+			case token.GEQ:
+				return a >= b, true
+			}
+		}
+	}
+	if b, known := boolOnPath(p, r); known {
+		return b, true
+	}
+	return false, false
 }
